@@ -8,6 +8,7 @@
 #include <string.h>
 #include <sys/stat.h>
 #include "sqfs/dir_writer.h"
+#include "sqfs/inode.h"
 #include "sqfs/meta_writer.h"
 #include "sqfs/meta_reader.h"
 #include "sqfs/compressor.h"
@@ -90,7 +91,29 @@ int main(int argc, char **argv)
 				}
 				printf("]}");
 			}
-			printf("],\"rerr\":%d,\"consumed\":%lu}\n", r, (unsigned long)done);
+			printf("],\"rerr\":%d,\"consumed\":%lu", r, (unsigned long)done);
+			/* the directory index: extended inode (xattr index 0 forces it), entries unpacked by the library; block positions are byte
+			   offsets of metadata blocks in the file: translated into block numbers by walking the block headers */
+			if (!err) {
+				sqfs_u64 boff[4096], o = 0, fsz = file->get_size(file);
+				int nb = 0;
+				while (o + 2 <= fsz && nb < 4096) { sqfs_u16 h; if (file->read_at(file, o, &h, 2)) break; boff[nb++] = o; o += 2 + (h & 0x7fff); }
+				sqfs_inode_generic_t *ino = sqfs_dir_writer_create_inode(dw, 0, 0, 1);
+				printf(",\"entry_count\":%lu,\"index_size\":%lu,\"index\":[", (unsigned long)sqfs_dir_writer_get_entry_count(dw), (unsigned long)sqfs_dir_writer_get_index_size(dw));
+				if (ino && ino->base.type == SQFS_INODE_EXT_DIR) {
+					for (unsigned i = 0; i < ino->data.dir_ext.inodex_count; ++i) {
+						sqfs_dir_index_t *ie = NULL;
+						int bn = -1;
+						if (sqfs_inode_unpack_dir_index_entry(ino, &ie, i)) break;
+						for (int k = 0; k < nb; ++k) if (boff[k] == ie->start_block) bn = k;
+						printf("%s[%u,%d,%u]", i ? "," : "", ie->index, bn, ie->size + 1);
+						sqfs_free(ie);
+					}
+				}
+				printf("]");
+				sqfs_free(ino);
+			}
+			printf("}\n");
 			fflush(stdout);
 			sqfs_drop(mr);
 		}
